@@ -69,11 +69,21 @@ def inline_method(f: Func, env0: Dict[str, ast.AST]) -> Optional[ast.AST]:
         elif isinstance(st, ast.AugAssign) and isinstance(st.target, ast.Name) and st.target.id in env:
             env[st.target.id] = ast.BinOp(env[st.target.id], st.op, _subst(st.value, env))
         elif isinstance(st, ast.If) and not st.orelse and len(st.body) == 1 and isinstance(st.body[0], ast.AugAssign) \
-                and isinstance(st.body[0].op, ast.Mult) and isinstance(st.body[0].target, ast.Name) \
+                and isinstance(st.body[0].op, (ast.Mult, ast.Div)) and isinstance(st.body[0].target, ast.Name) \
                 and isinstance(st.body[0].value, ast.BinOp) and isinstance(st.body[0].value.op, ast.Pow) \
-                and norm(st.body[0].value.right) == norm(st.test) and st.body[0].target.id in env:
+                and st.body[0].target.id in env:
             a = st.body[0]
-            env[a.target.id] = ast.BinOp(env[a.target.id], ast.Mult(), _subst(a.value, env))
+            n_txt = norm(a.value.right)
+            t = st.test
+            if norm(t) == n_txt or norm(t) in ("%s != 0" % n_txt, "%s > 0" % n_txt):
+                # executed exactly when n != 0; for n == 0 the factor is 1: same as unconditional
+                env[a.target.id] = ast.BinOp(env[a.target.id], a.op, _subst(a.value, env))
+            elif isinstance(t, ast.UnaryOp) and isinstance(t.op, ast.Not) and norm(t.operand) == n_txt \
+                    or norm(t) == "%s == 0" % n_txt:
+                # executed only when n == 0, where the factor is 1: the penalty is never applied
+                pass
+            else:
+                return None
         elif isinstance(st, ast.Return):
             return _subst(st.value, env) if st.value is not None else None
         else:
@@ -266,7 +276,9 @@ def run(ctx: Ctx):
     for m, cs in disp.items():
         for c in cs:
             first = c.split(" and ")[0]
-            if first.startswith("(") and ("is None" in first or "len(%s) == 0" % p_restr in first):
+            if first.startswith("(") and first.strip("()").replace(" ", "") in (
+                    "%sisNoneorlen(%s)==0" % (p_restr, p_restr), "not%s" % p_restr, "%sisNoneornot%s" % (p_restr, p_restr),
+                    "%sisNoneorlen(%s)<1" % (p_restr, p_restr)):
                 sel_none = m
             elif first.startswith("not (") and ("(not %s.any())" % mask_name) in c and "not (not" not in c:
                 sel_only = m
@@ -288,6 +300,21 @@ def run(ctx: Ctx):
         fs = _factors(e)
         pows = [x for x in fs if isinstance(x, ast.BinOp) and isinstance(x.op, ast.Pow)]
         rest = [x for x in fs if x not in pows]
+        if isinstance(e, ast.BinOp) and isinstance(e.op, ast.Div) and isinstance(e.right, ast.BinOp) and isinstance(e.right.op, ast.Pow):
+            ctx.ob("R8.2", g, "%s: closed form %s" % (name, norm(e)[:140]), False,
+                   "the sum is MULTIPLIED by base ** k -- here it is divided by it", node=g.node)
+            return
+        if not pows and len(rest) >= 1 and not any("self." in norm(x) for x in rest[1:]):
+            ctx.ob("R8.2", g, "%s: closed form %s" % (name, norm(e)[:140]), False,
+                   "the sum is multiplied by 1.1 ** k (k = mobile atoms that are neither restrained nor nearest to a "
+                   "fixed atom) -- the closed form has no such factor", node=g.node)
+            return
+        unset = [norm(x) for x in fs if isinstance(x, ast.Attribute) and attr_chain(x) and attr_chain(x).startswith("self.")
+                 and attr_chain(x) not in stores]
+        if unset:
+            ctx.ob("R8.2", g, "%s: closed form %s" % (name, norm(e)[:140]), False,
+                   "every factor of the closed form is defined -- %s is never set by the constructor" % unset, node=g.node)
+            return
         ok_shape = len(pows) == 1 and len(rest) == 1
         if not ok_shape:
             ctx.ob("R8.2", g, "closed form %s" % norm(e)[:160], True,
